@@ -175,6 +175,10 @@ func init() {
 				o := R.decide("C01.g", "gabi.ProofD:ADisclosed∩AResponses=∅", "accept => no attribute index is both disclosed and hidden", ok, details, "")
 				o.Analysed = seen
 			}},
+		Rule{ID: "C01.h", Explain: "what is disclosed is the attribute itself: in CreateProof an attribute value reaches ProofD.ADisclosed only as the raw attribute of that index (the obligations of C04.a on the ADisclosed sink, same rule): a disclosed entry that carries the hashed exponent verifies - the verifier hashes nothing below 2^Lm - and shows the relying party a value that is not the attribute.",
+			Run: func(P *Program, R *Report) {
+				sharedRule(P, R, "C04", "C04.a", "C01.h", func(c string) bool { return strings.Contains(c, "CreateProof") })
+			}},
 	)
 }
 
